@@ -5,6 +5,7 @@ import (
 
 	"github.com/jsightapi/jsight-schema-go-library/errors"
 	"github.com/jsightapi/jsight-schema-go-library/notations/jschema/internal/schema"
+	"github.com/jsightapi/jsight-schema-go-library/notations/jschema/internal/schema/constraint"
 )
 
 // CheckRecursion checks that given schema doesn't have invalid recursions.
@@ -122,7 +123,12 @@ func (c *recursionChecker) check(node schema.Node, types map[string]schema.Type)
 
 	// We should check all fields in the object 'cause some of them can be required.
 	case *schema.ObjectNode:
-		for _, n := range node.Children() {
+		for i, n := range node.Children() {
+			// A property can be optional without the rule "optional" (see
+			// KeysAreOptionalByDefault): the object knows its required keys.
+			if !isRequiredKey(node, node.Key(i).Key) {
+				continue
+			}
 			if err := c.check(n, types); err != nil {
 				return err
 			}
@@ -133,6 +139,19 @@ func (c *recursionChecker) check(node schema.Node, types map[string]schema.Type)
 	}
 
 	return nil
+}
+
+func isRequiredKey(node *schema.ObjectNode, key string) bool {
+	c, ok := node.Constraint(constraint.RequiredKeysConstraintType).(*constraint.RequiredKeys)
+	if !ok {
+		return false
+	}
+	for _, k := range c.Keys() {
+		if k == key {
+			return true
+		}
+	}
+	return false
 }
 
 func (c *recursionChecker) checkMixedValueNode(
